@@ -204,3 +204,114 @@ def source_copies(prop="C09", replay=None):
         if replay:
             r.replay = replay()
     return [r]
+
+
+def include_before_every_statement(prop="C02", replay=None):
+    """an INCLUDE line is a statement like any other as far as layout goes: first on its line or after a `;`.  FortranReader.include() expands `pending[0]` if it is an INCLUDE
+    line, so it has to be called before *every* `return self.pending.pop(0)` of __next__ - the branch that returns a statement queued earlier included."""
+    oid = f"{prop}.S.FortranReader.__next__.include_is_expanded_before_every_statement_that_is_handed_out"
+    fn = loader.find_def("ford.reader", "FortranReader.__next__")
+    pops = []
+    for parent in ast.walk(fn):
+        for field in ("body", "orelse", "finalbody"):
+            block = getattr(parent, field, None)
+            if not isinstance(block, list):
+                continue
+            for i, st in enumerate(block):
+                if isinstance(st, ast.Return) and st.value is not None and ast.unparse(st.value) == "self.pending.pop(0)":
+                    before = [ast.unparse(b) for b in block[:i]]
+                    pops.append((st.lineno, "self.include()" in before))
+    if not pops:
+        return [OR(id=oid, status=UNKNOWN, kind="S", target="ford.reader.FortranReader.__next__", detail="no `return self.pending.pop(0)` found")]
+    ok = all(p[1] for p in pops)
+    r = OR(id=oid, status=PROVED if ok else REFUTED, kind="S", role="pre", backend="ast", target="ford.reader.FortranReader.__next__",
+           desc=f"each of the {len(pops)} `return self.pending.pop(0)` of __next__ has `self.include()` before it in its block")
+    if not ok:
+        r.witness = {"returns": pops}
+        r.detail = "an INCLUDE line that is not the first statement of its source line reaches the parser as text: what the include file declares is lost"
+        if replay:
+            r.replay = replay()
+    return [r]
+
+
+def doc_lines_before_masking(prop="C02", replay=None):
+    """FortranContainer.__init__ statement loop: a documentation line that reaches the loop (after `use`, `implicit none`, an executable statement ...) is taken as it is - the
+    `if line.startswith("!" + docmark)` test stands before the loop that replaces character literals by placeholders (quotes in a comment are not literals)."""
+    oid = f"{prop}.S.FortranContainer.__init__.doc_lines_are_taken_before_the_literals_are_cut_out"
+    fn = loader.find_def("ford.sourceform", "FortranContainer.__init__")
+    loops = [n for n in fn.body if isinstance(n, ast.For) and ast.unparse(n.iter) == "source"]
+    if len(loops) != 1:
+        return [OR(id=oid, status=UNKNOWN, kind="S", target="ford.sourceform.FortranContainer.__init__", detail="statement loop not found")]
+    body = loops[0].body
+    mask = next((i for i, st in enumerate(body) if isinstance(st, ast.While) and "QUOTES_RE.search(line" in ast.unparse(st.test) and "self.strings.append" in ast.unparse(st)), None)
+    doc = next((i for i, st in enumerate(body) if isinstance(st, ast.If) and "line.startswith('!' + self.settings.docmark)" in ast.unparse(st.test) and any(isinstance(b, ast.Continue) for b in st.body)), None)
+    if mask is None or doc is None:
+        return [OR(id=oid, status=UNKNOWN, kind="S", target="ford.sourceform.FortranContainer.__init__", detail=f"masking loop at {mask}, doc-line test at {doc}")]
+    ok = doc < mask
+    r = OR(id=oid, status=PROVED if ok else REFUTED, kind="S", role="pre", backend="ast", target="ford.sourceform.FortranContainer.__init__",
+           desc="the doc-line test (with its `continue`) stands before the literal-masking loop of the statement loop")
+    if not ok:
+        r.detail = "quoted words of a documentation line are replaced by placeholders and never put back"
+        if replay:
+            r.replay = replay()
+    return [r]
+
+
+def file_dependencies_by_identity(prop="C13", replay=None):
+    """FileNode.__init__ skips a dependency that lies in the same *file object*: source files are compared by identity (`dep.source_file == obj` / `is`), never by name - `name` is
+    the base name, which two files in different directories can share."""
+    oid = f"{prop}.S.graphs.FileNode.__init__.same_file_means_the_same_file_object"
+    fn = loader.find_def("ford.graphs", "FileNode.__init__")
+    cmps = [c for c in ast.walk(fn) if isinstance(c, ast.Compare)]
+    named = [ast.unparse(c) for c in cmps if any(isinstance(a, ast.Attribute) and a.attr in ("name", "filename", "ident") for x in [c.left] + c.comparators for a in ast.walk(x))]
+    ident = [ast.unparse(c) for c in cmps if ast.unparse(c).replace(" is ", " == ") in ("dep.source_file == obj", "obj == dep.source_file")]
+    ok = bool(ident) and not named
+    r = OR(id=oid, status=PROVED if ok else REFUTED, kind="S", role="pre", backend="ast", target="ford.graphs.FileNode.__init__",
+           desc=f"the same-file test is `{ident[0] if ident else '?'}`; comparisons of names in the function: {named}")
+    if not ok:
+        r.detail = "files are told apart by their base name: a dependency between two equally named files of different directories is dropped"
+        if replay:
+            r.replay = replay()
+    return [r]
+
+
+def blank_lines_stay_blank(prop="C14", replay=None):
+    """fixed2free2.FortranLine.__convert: only a comment line (column-1 `C`, `c`, `*`, `!` ...) is turned into a `!` line; a blank line stays blank - for the reader a blank line ends a
+    block of alternate-marker documentation, a `!` line continues it.  Recognised form: the branch that writes `"!" + line[1:]` is guarded by `self.isComment` alone."""
+    oid = f"{prop}.S.fixed2free2.FortranLine.__convert.only_comment_lines_become_comment_lines"
+    try:
+        fn = loader.find_def("ford.fixed2free2", "FortranLine._FortranLine__convert")
+    except loader.TargetMissing:
+        try:
+            fn = loader.find_def("ford.fixed2free2", "FortranLine.__convert")
+        except loader.TargetMissing as e:
+            return [OR(id=oid, status=UNKNOWN, kind="S", target="ford.fixed2free2.FortranLine.__convert", detail=str(e))]
+    sites = [n for n in ast.walk(fn) if isinstance(n, ast.If) and any(isinstance(b, ast.Assign) and ast.unparse(b.value).replace('"', "'") == "'!' + line[1:]" for b in n.body)]
+    if len(sites) != 1:
+        return [OR(id=oid, status=UNKNOWN, kind="S", target="ford.fixed2free2.FortranLine.__convert", detail=f"{len(sites)} branches write '!' + line[1:]")]
+    ok = ast.unparse(sites[0].test) == "self.isComment"
+    r = OR(id=oid, status=PROVED if ok else REFUTED, kind="S", role="pre", backend="ast", target="ford.fixed2free2.FortranLine.__convert",
+           desc=f"`if {ast.unparse(sites[0].test)}: self.line_conv = '!' + line[1:]`: the only lines that become `!` lines are comment lines")
+    if not ok:
+        r.detail = "other lines (blank ones) are rendered as comment lines: an alternate documentation block runs on across them"
+        if replay:
+            r.replay = replay()
+    return [r]
+
+
+def favicon_copy(prop="C09", replay=None):
+    """every page links the icon as `{{ project_url }}/favicon.png` (base.html); Documentation.writeout copies the configured icon - whatever its file name - to exactly
+    `out_dir / "favicon.png"`."""
+    oid = f"{prop}.S.output.Documentation.writeout.icon_is_copied_to_the_name_the_pages_link"
+    fn = loader.find_def("ford.output", "Documentation.writeout")
+    calls = [c for c in ast.walk(fn) if isinstance(c, ast.Call) and ast.unparse(c.func).startswith("shutil.copy") and "favicon" in ast.unparse(c)]
+    tdir = os.path.join(os.path.dirname(loader.module_path("ford.output")), "templates")
+    link_ok = "{{ project_url }}/favicon.png" in open(os.path.join(tdir, "base.html"), encoding="utf-8").read()
+    ok = len(calls) == 1 and len(calls[0].args) == 2 and ast.unparse(calls[0].args[1]).replace('"', "'") == "out_dir / 'favicon.png'" and link_ok
+    r = OR(id=oid, status=PROVED if ok else REFUTED, kind="S", role="post", backend="ast", target="ford.output.Documentation.writeout",
+           desc=f"`{ast.unparse(calls[0])[:80] if calls else '?'}` and base.html links `{{{{ project_url }}}}/favicon.png`: {link_ok}")
+    if not ok:
+        r.detail = "with a custom icon the link of every page points to a file that is not written"
+        if replay:
+            r.replay = replay()
+    return [r]
